@@ -328,16 +328,23 @@ ItemType(f) == CASE f = "a" -> "integer" [] f = "b" -> "string" [] f = "c" -> "b
 MultiSchema == [sk |-> "schema", type |-> <<"object">>, required |-> <<Tgate, Titem>>,
                 props |-> [k |-> <<Tgate, Titem>>, v |-> <<[sk |-> "schema", type |-> <<"string">>, format |-> "verif-gate"],
                                                            [sk |-> "schema", ref |-> "#/definitions/Item"]>>]]
-MkMulti(d, f) ==
-  [id |-> <<d, f, "multifile">>, dialect |-> d, mts |-> <<MTJson>>, refResp |-> TRUE, refSchema |-> FALSE, refHeader |-> FALSE,
-   slice |-> "multifile", file |-> f,
-   resps |-> <<[key |-> K200, schemas |-> <<[has |-> TRUE, name |-> "Multi", s |-> MultiSchema]>>, headers |-> <<>>]>>]
+(* layout "response": the response object is referenced into the file; "pathitem": the PATH ITEM is referenced and the      *)
+(* response is written inline in that file, with references local to that file in the body schema and in a header schema;  *)
+(* the root document defines the same pointer with other content                                                          *)
+NItem == <<88, 45, 73, 116, 101, 109>>       \* X-Item
+MkMulti(d, f, layout) ==
+  [id |-> <<d, f, layout, "multifile">>, dialect |-> d, mts |-> <<MTJson>>, refResp |-> layout = "response", refSchema |-> FALSE, refHeader |-> FALSE,
+   slice |-> "multifile", file |-> f, layout |-> layout,
+   resps |-> <<[key |-> K200, schemas |-> <<[has |-> TRUE, name |-> "Multi", s |-> MultiSchema]>>,
+                headers |-> IF layout = "pathitem" /\ d = "3.0"           \* a 2.0 Header Object cannot hold a reference
+                            THEN <<[name |-> NItem, required |-> FALSE, schema |-> [has |-> TRUE, s |-> [sk |-> "schema", ref |-> "#/definitions/Item"]]]>>
+                            ELSE <<>>]>>]
 MultiBodies == {[kind |-> "json", v |-> Obj(<<Tgate, Titem>>, <<Str1(Ta), Int1(1)>>)],
                 [kind |-> "json", v |-> Obj(<<Tgate, Titem>>, <<Str1(Ta), Str1(Ta)>>)],
                 [kind |-> "json", v |-> Obj(<<Tgate, Titem>>, <<Str1(Ta), [t |-> "bool", v |-> TRUE]>>)]}
 Defns ==
   {MkFmt(d, S, f, rs) : d \in Dialects3, S \in {{1}, {3, 6}}, f \in Formats, rs \in BOOLEAN}
-  \cup {MkMulti(d, Files[i]) : d \in Dialects3, i \in DOMAIN Files} \cup
+  \cup {MkMulti(d, Files[i], l) : d \in Dialects3, i \in DOMAIN Files, l \in {"response", "pathitem"}} \cup
   (* keys: every key set, two media types with different schemas (3.0) / one schema (2.0) *)
   {Mk(d, S, FALSE, FALSE, IF d = "2.0" THEN 2 ELSE 3, 0, 1, FALSE, FALSE, FALSE, "keys") :
        d \in Dialects, S \in {T \in KeySets : Thorough \/ Cardinality(T) <= 2 \/ 6 \in T \/ 3 \in T}}
@@ -383,7 +390,8 @@ Resps(d) ==
   THEN {[status |-> s, ct |-> CtText(d, "doc1"), hdrs |-> hs, body |-> [kind |-> "json", v |-> Str1(b)]] :
           s \in {200, 404}, b \in FmtTexts(d.fmt), hs \in {<<>>} \cup {<<[name |-> NFmt, value |-> v]>> : v \in FmtTexts(d.fmt)}}
   ELSE IF d.slice = "multifile"
-  THEN {[status |-> 200, ct |-> CtText(d, "doc1"), hdrs |-> <<>>, body |-> b] : b \in MultiBodies}
+  THEN {[status |-> 200, ct |-> CtText(d, "doc1"), hdrs |-> hs, body |-> b] : b \in MultiBodies,
+          hs \in {<<>>} \cup (IF d.layout = "pathitem" /\ d.dialect = "3.0" THEN {<<[name |-> NItem, value |-> V5]>>, <<[name |-> NItem, value |-> Vabc]>>} ELSE {})}
   ELSE IF d.slice = "headers"
   THEN {[status |-> s, ct |-> CtText(d, o), hdrs |-> hs, body |-> b] :
           s \in Statuses, o \in {"doc1", "absent"}, b \in FewBodies, hs \in HeaderSendings(d.resps[1].headers)}
